@@ -6,6 +6,7 @@ from ..facts import CheckError
 import re
 
 from ..sym import Sym, atoms, fmt
+from .. import ir
 from .ranges import Ctx, FLIP, NEG, strip_widen, same, mentions
 
 
@@ -857,6 +858,104 @@ def crop_passthrough(rep, prog, rule):
                 else:
                     rep.unk(rule, key, st[3], "stored crop box %s" % fmt(e)[:120])
     rep.floor(rule, "constructors that take a CropBox", n, 2)
+
+
+def crop_route(rep, prog, rule):
+    """the user's crop box reaches the validator / the view untouched"""
+    rep.rule(rule, "a CropBox that a function RECEIVED (a parameter, the payload of "
+             "SrcCropping::Crop, the result of a call) is handed on as it is: (a) a function that "
+             "returns a CropBox and reads one out of an enum payload returns exactly that payload on "
+             "that arm; (b) no field of a received CropBox is assigned in place and no `&mut` of it "
+             "is taken. The box the validator sees must be the caller's box (C04: a box outside the "
+             "image is refused, not repaired) and the box the resamplers use must be the one that "
+             "was validated / fitted (C15: the fitted box lies inside the source because "
+             "fit_src_into_dst_size computed position and size TOGETHER)")
+    n = 0
+    for f in sorted(prog.fns.values(), key=lambda x: x.id):
+        if f.kind == "closure":
+            continue
+        cbs = [l for l in range(len(f.locals))
+               if re.match(r"^([a-z_0-9]+::)*CropBox$", f.local_ty(l) or "")]
+        if not cbs:
+            continue
+        defs = f.defs()
+        sym = None
+        # (b) in-place edits of a received box
+        for l in cbs:
+            ds = defs.get(l, [])
+            whole = [d for d in ds if d[3]]
+            part = [d for d in ds if not d[3]]
+            received = (1 <= l <= f.arg_count) or any(
+                d[2][0] == "callret" or (d[2][0] == "use" and "'dc'" in str(d[2])) or
+                d[2][0] == "use" for d in whole)
+            built = any(d[2][0] == "agg" for d in whole)
+            muts = []
+            for b, blk in enumerate(f.blocks):
+                if blk["c"]:
+                    continue
+                for j, st in enumerate(blk["s"]):
+                    if st[0] == "a" and st[2][0] == "ref" and st[2][1] in ("mut", "two_phase") \
+                            and st[2][2][0] == l:
+                        muts.append((b, j, st))
+            if not part and not muts:
+                if received:
+                    n += 1
+                    rep.touch(f)
+                    rep.ok(rule, "%s|%s|as-received" % (f.name, f.local_name(l) or "_%d" % l), f.loc,
+                           "no field is assigned, no &mut is taken")
+                continue
+            n += 1
+            rep.touch(f)
+            key = "%s|%s|edited" % (f.name, f.local_name(l) or "_%d" % l)
+            if received and not built:
+                b, j = (part[0][0], part[0][1]) if part else (muts[0][0], muts[0][1])
+                at = f.blocks[b]["s"][j][3] if isinstance(j, int) else f.loc
+                rep.bad(rule, key, at, "%s changes the crop box `%s` it received (%d field "
+                        "assignment(s), %d &mut): the box that is validated / used is not the one "
+                        "the caller or fit_src_into_dst_size produced" % (
+                            f.name, f.local_name(l) or "_%d" % l, len(part), len(muts)))
+            else:
+                rep.unk(rule, key, f.loc, "a CropBox built here is also edited in place")
+        # (a) payload arms
+        if 0 not in cbs:
+            continue
+        for b, blk in enumerate(f.blocks):
+            if blk["c"]:
+                continue
+            for j, st in enumerate(blk["s"]):
+                if not (st[0] == "a" and len(st[1]) == 1 and st[1][0] in cbs and st[2][0] == "use"
+                        and "'dc'" in str(st[2])):
+                    continue
+                x = st[1][0]
+                # blocks of this arm: forward from b up to (not including) the first join block
+                seen, todo, found = set(), [b], []
+                while todo:
+                    k = todo.pop()
+                    if k in seen:
+                        continue
+                    seen.add(k)
+                    for (bb, jj, rv, w) in defs.get(0, []):
+                        if bb == k and (bb != b or jj == "term" or jj > j):
+                            found.append((bb, jj, rv, w))
+                    for s2 in f.succ[k]:
+                        if len([p for p in f.pred[s2] if not f.is_cleanup(p)]) > 1:
+                            continue       # the join: the other arms' business
+                        todo.append(s2)
+                n += 1
+                rep.touch(f)
+                key = "%s|payload" % f.name
+                if not found:
+                    rep.unk(rule, key, st[3], "no assignment of the result on the payload arm")
+                    continue
+                for (bb, jj, rv, w) in found:
+                    if w and rv[0] == "use" and ir.op_place(rv[1]) == [x]:
+                        rep.ok(rule, key, st[3], "the payload is returned as it is")
+                    else:
+                        rep.bad(rule, key + "|modified", st[3],
+                                "%s reads a CropBox out of an enum payload and returns something "
+                                "else on that arm (%s): the user's box is altered before it is "
+                                "validated" % (f.name, str(rv[0])))
+    rep.floor(rule, "received crop boxes", n, 8)
 
 
 def align_reject(rep, prog, rule):
